@@ -197,6 +197,16 @@ func retypeProgram(r *Rng) []byte {
 		fmt.Fprintf(&sb, "%s = %s\n", v, r.Pick(lits))
 	}
 	idx := []string{"0", "-1", ":x", ":y", "\"k\"", "1..2", "nil"}
+	if r.Chance(1, 6) {
+		// a value wrapped in itself again and again: the type doubles with every line
+		v := r.Pick(vars)
+		form := r.Pick([]string{"%s = [%s, %s]", "%s = {a: %s, b: %s}", "%s = [%s] + [%s]", "%s = %s ? %s : [1]"})
+		for k := r.Range(4, 26); k > 0; k-- {
+			fmt.Fprintf(&sb, form+"\n", v, v, v)
+		}
+		fmt.Fprintf(&sb, "p %s\n", v)
+		return []byte(sb.String())
+	}
 	for k := 0; k < r.Range(3, 10); k++ {
 		v, w := r.Pick(vars), r.Pick(vars)
 		if r.Chance(1, 2) {
@@ -212,11 +222,23 @@ func retypeProgram(r *Rng) []byte {
 		case 3:
 			fmt.Fprintf(&sb, "c%d = %s[%s]\n", k, v, r.Pick(idx))
 		case 4:
-			fmt.Fprintf(&sb, "%s << (%s = %s)\n", v, w, r.Pick(lits))
+			if r.Chance(1, 2) {
+				fmt.Fprintf(&sb, "%s.%s(%s = %s)\n", v, r.Pick([]string{"push", "unshift", "concat", "merge", "store", "replace", "append"}), w, r.Pick(lits))
+			} else {
+				fmt.Fprintf(&sb, "%s << (%s = %s)\n", v, w, r.Pick(lits))
+			}
 		case 5:
 			fmt.Fprintf(&sb, "%s[%s] %s %s\n", v, r.Pick(idx), r.Pick([]string{"+=", "||=", "<<"}), r.Pick(lits))
 		case 6:
-			fmt.Fprintf(&sb, "%s.each { |e, f| %s = e }\n", v, w)
+			switch r.Intn(3) {
+			case 0:
+				fmt.Fprintf(&sb, "%s.each { |e, f| %s = e }\n", v, w)
+			case 1:
+				// a literal of unlike elements, destructured and indexed inside the block
+				fmt.Fprintf(&sb, "[%s, %s, %s].each do |k, v| k[%s] end\n", v, r.Pick(lits), r.Pick([]string{"p(a: 1)", "puts(1)", "x = 1", w}), r.Pick(idx))
+			default:
+				fmt.Fprintf(&sb, "x%d = p(%s)\n[x%d, %s].each do |k, v| p k[%s], v end\n", k, r.Pick([]string{"a: 1", "1", "[1]", v}), k, r.Pick(lits), r.Pick(idx))
+			}
 		case 7:
 			fmt.Fprintf(&sb, "%s, %s = %s, %s[%s]\n", v, w, w, v, r.Pick(idx))
 		default:
